@@ -341,7 +341,7 @@ def run(ctx):
         cs.append(("%s|cold|context-chain-vs-same-leaf" % be, be, "cold", [[("top1@ctx", 1)], [("leaf", 1)]]))
         cs.append(("%s|cold|context-chain-vs-plain-chain" % be, be, "cold", [[("top1@ctx", 1)], [("top2", 1)]]))
     c09.concurrent_part(ctx, cs, "ctx", "a call chain made under context arguments in one thread while another thread makes calls without "
-                        "them (each call must be stored under exactly its own context arguments)", bound=2 if thorough else 1)
+                        "them (each call must be stored under exactly its own context arguments)", bound=1, deep=(2, "runner", "calls") if thorough else None)
     at = [(kind, what, k) for kind in ("mem", "fsc") for what in ("context", "prevented") for k in (1, 2, 3)]
     ctx.merge(pmap(aftermath_case, at, chunksize=2))
     ctx.rule += " Plus: a call under context arguments / with calls prevented that fails because the store raises at its k-th look-up (k = 1..3); the next ordinary calls are unaffected."
